@@ -11,10 +11,11 @@ import (
 // Model is the reference renderer over the generator's AST. It implements
 // what the property statements say and answers Unsp wherever they are silent.
 type Model struct {
-	Files    map[string][]gen.Node                          // include name -> template (virtual file table)
-	Strict   bool                                           // strict-variables mode
-	PlainTag func(name string, vars map[string]V) (string, bool) // harness-registered tags (probes)
-	MapOrder bool                                           // iterate maps in sorted key order (else >1 entries is Unsp)
+	Files     map[string][]gen.Node                               // include name -> template (virtual file table)
+	Strict    bool                                                // strict-variables mode
+	PlainTag  func(name string, vars map[string]V) (string, bool) // harness-registered tags (probes)
+	MapOrder  bool                                                // iterate maps in sorted key order (else >1 entries is Unsp)
+	FailFiles map[string]bool                                     // include names whose content cannot render (syntax error, unknown tag): including them is an error
 }
 
 type ctl int
@@ -288,6 +289,9 @@ func (st *rstate) node(w *strings.Builder, n gen.Node) (ctl, Status) {
 			return ctlNone, s
 		}
 		if v.K != gen.KStr {
+			return ctlNone, Err
+		}
+		if st.m.FailFiles[v.S] {
 			return ctlNone, Err
 		}
 		body, ok := st.m.Files[v.S]
